@@ -1264,6 +1264,13 @@ void run_case(uint64_t seed, long icase, bool thorough)
             }
 
             check_consistency(g, x, name, crit_name(crit), *w, true);
+            {
+                // ... and on ALL samples of the dataset: a sample that was not used for fitting can sit exactly on the fitted
+                // mid-point threshold (grids k/4, integers), where predict() and split() must still agree
+                ctx_t y = x;
+                y.samples = arange(0, dataset.samples());
+                check_consistency(g, y, name + "@all", crit_name(crit), *w, false);
+            }
 
             // a tree of depth 1 has the score of the stump (the selected feature may differ under exact ties when several workers
             // fit: the exact comparison of the predictions is made below behind a one-thread pool)
@@ -1317,9 +1324,37 @@ void run_case(uint64_t seed, long icase, bool thorough)
         rwlearners_t list;
         const char*  pool[] = {"affine", "dense-table", "kbest-table", "dstep-table", "ksplit-table", "stump", "hinge", "dtree"};
         const auto   len    = g.rng.range(1, 7);
-        const auto   bias   = g.rng.range(0, 3); // 0: any, 1: affine-heavy, 2: table-heavy, 3: clones of the first
+        const auto   bias   = g.rng.range(0, 4); // 0: any, 1: affine-heavy, 2: table-heavy, 3: clones of the first, 4: k-split groupings
+        // bias 4: k-split tables fitted (aicc / bic: fewer groups than labels) on gradients that depend on ONE categorical
+        // feature through different 2-groupings of its labels ({0,1}|{2,3} vs {0,2}|{1,3} ...): same feature, same labels, same
+        // number of groups, different label -> group mapping -- such learners must NOT be merged element-wise
+        int64_t ksf = -1;
+        if (bias == 4)
+        {
+            for (size_t f = 0; f < c.feats.size(); ++f)
+                if (c.feats[f].kind == k_sclass && c.feats[f].classes >= 3) { ksf = static_cast<int64_t>(f); break; }
+        }
         for (int64_t i = 0; i < len; ++i)
         {
+            if (bias == 4 && ksf >= 0)
+            {
+                const auto& ft = c.feats[static_cast<size_t>(ksf)];
+                std::vector<int> grp(static_cast<size_t>(ft.classes));
+                do { for (auto& v : grp) v = static_cast<int>(g.rng.range(0, 1)); } while (std::count(grp.begin(), grp.end(), grp[0]) == ft.classes);
+                tensor4d_t gr(make_dims(c.rows, c.outs, 1, 1));
+                for (tensor_size_t sidx = 0; sidx < c.rows; ++sidx)
+                {
+                    const auto us = static_cast<size_t>(sidx);
+                    for (int o = 0; o < c.outs; ++o)
+                    {
+                        const double base = ft.present[us] != 0U ? (grp[static_cast<size_t>(ft.label[us])] != 0 ? 4.0 : -4.0) * (o + 1) : 0.0;
+                        gr(sidx, o, 0, 0) = base + static_cast<double>(g.rng.range(-2, 2)) / 64.0;
+                    }
+                }
+                auto w = make_learner("ksplit-table", g.coin(50) ? wlearner_criterion::aicc : wlearner_criterion::bic, 1, 5);
+                if (w->fit(dataset, samples, gr) != wlearner_t::no_fit_score()) list.emplace_back(std::move(w));
+                continue;
+            }
             if (bias == 3 && !list.empty() && g.coin(60))
             {
                 list.emplace_back(list[0]->clone());
